@@ -921,3 +921,18 @@ Fixpoint lookup_last (n : string) (l : list (string * obj)) : option obj :=
                    | None => if String.eqb n k then Some v else None
                    end
   end.
+
+(* ------------------------------------------------------------------ mode-level other_name (json_io.Transceiver.__init__) *)
+(* on the modes as they are after the penalties have been rearranged: every mode keeps its place without its
+   other_name list; one copy per alias (format = alias) is appended after all the declared modes *)
+Definition mode_alias_names (m : obj) : res (list string) :=
+  match jget "other_name" m with
+  | None => Ok []
+  | Some on => let* l := as_arr on in mapM as_key l
+  end.
+Definition mode_aliases (m : obj) : res (list obj) :=
+  let* names := mode_alias_names m in
+  Ok (map (fun n => jset "format" (JStr n) (jdel "other_name" m)) names).
+Definition expand_modes (ms : list obj) : res (list obj) :=
+  let* al := mapM mode_aliases ms in
+  Ok (map (jdel "other_name") ms ++ concat al).
